@@ -7,6 +7,15 @@ CLAIMS = {
  "C01": dict(text="Structural necessary conditions of the property decided on every path: 14 rule groups (C01.1-C01.14) over negotiateFeatures / readStreamFeatures / writeStreamFeatures / negotiateSession / the negotiator closure show by edge-dominance with branch facts that Negotiate is called only behind the advertised / not-yet-negotiated / negotiable guards (receiver) or for cache entries passing the same tests (initiator), voluntary features are taken first, the negotiated set is recorded before the loop continues, state bits are only OR-ed in and only after a nil error, Ready is produced only under its three licences, advertisement uses exactly the prerequisite masks, and a restart clears per-stream state and sends/expects a fresh header. This is a for-all-paths fact (every advertisement order, map order, feature set), which no finite set of transcripts gives; it is 'other' because it decides the code shape that implies the behaviour, not the behaviour on executed transcripts.",
              ref="DESIGN.md section 2, C01", tech="static analysis: go/cfg edge-dominance with branch facts, restricted reaching definitions, who-may-write, constant folding",
              note="Trusted: go/types, go/cfg, the obligation tables; not decided: third-party features' own masks and Negotiate bodies, run-time satisfiability of jointly dominating facts."),
+ "C02": dict(text="Structural necessary conditions decided on every path: the forced-STARTTLS selection and the Ready licences (C01.4/C01.9), the first-features-list indicator (C02.2: true exactly until a features list was consumed, also with the tee on), prerequisite masks of the built-in features (C02.3), TLS built on the raw connection with the session's own domain as default ServerName and fresh coders after the restart (C02.4/C01.12), statelessness of all 16 feature closures (C02.5), the <proceed/> guard and the single success return of the STARTTLS step (C02.6), closed lists of raw-connection uses (C02.7) and of producers of the Secure bit (C02.8). Level 'other': the check decides the code shape that every clear-text-downgrade scenario must go through, for all peers' answers, not the TLS handshake or byte-level transcript equality.",
+             ref="DESIGN.md section 2, C02", tech="static analysis: edge-dominance over go/cfg fact graphs, captured-variable write detection, constant folding, who-may-call tables",
+             note="Trusted: crypto/tls, go/types, go/cfg; not decided: TLS handshake, peer behaviour after <proceed/>, transcript equality with/without the tee."),
+ "C03": dict(text="Structural necessary conditions decided on every path of sasl.go: closed list of producers of the Authn bit, server success dominated by a nil-error Step of a negotiator built by sasl.NewServer with the permission callback passed through unchanged and by the mechanism's !more, mechanism selection only among names offered by both sides, the client's success dominated on every path by success evidence from the receiver (decodeSASLChallenge's contract checked separately), no dropped error in the SASL functions (pending-error dataflow). Level 'other': decides that no control-flow path yields Authn without these events, for every peer message sequence; mechanisms' own state machines are trusted.",
+             ref="DESIGN.md section 2, C03", tech="static analysis: edge-dominance (incl. disjunctive), restricted reaching definitions, parameter pass-through, pending-error dataflow",
+             note="Trusted: mellium.im/sasl mechanisms and Negotiator.Step contract (more/err), encoding/xml decoding."),
+ "C04": dict(text="Error discipline decided exactly, cancellation structurally: a pending-error may-dataflow over every repository function reachable (VTA) from negotiateSession (plus all feature closures) proves that no path overwrites or drops a non-nil error assigned from a call; every unassigned error result is in a reasoned accept table and success returns after writes are preceded by an explicit Flush; state bits are applied only after a nil error; the deadline watcher is started unconditionally for net.Conn transports and Expect polls ctx before each read; no bare assertion / explicit panic in the negotiation functions. Holds for every fault index because it is a fact about all paths. Level 'other': does not decide timing of cancellation against blocking I/O.",
+             ref="DESIGN.md section 2, C04", tech="static analysis: pending-error (may) dataflow over go/cfg, VTA call-graph reachability, must-pass-through, accept tables",
+             note="Trusted: VTA call graph soundness for the negotiation entry set, net.Conn deadline semantics; not decided: timing, goroutine liveness, transports without deadlines."),
 }
 
 def main():
